@@ -120,6 +120,27 @@ Proof.
   yields_with ltac:(first [real_fact | (one; lra) | (exfalso; one; lra)])
               ltac:(first [reflexivity | exfalso; one; destruct HG as [HG|[HG|[HG|HG]]]; lra]).
 Qed.
+(* a sample WITHOUT lenses (supernovae / KDE only): the per-lens loop has nothing to look at, the dark-energy condition still rejects,
+   and again before anything is evaluated *)
+Theorem olcdm_guard_no_lenses om ok h l0 l1 l2 u0 u1 u2 x0 x1 x2 rg cu :
+  inside l0 u0 x0 -> inside l1 u1 x1 -> inside l2 u2 x2 ->
+  1 - om - ok <= 0 ->
+  yields (Gt Ls om ok h) 100 (CFun src_CosmoLikelihood_likelihood) (Some (cl_obj (VList []) "oLCDM" l0 l1 l2 u0 u1 u2)) [VList [num x0; num x1; num x2]] [] rg cu
+    (VNum NegInf) cu [("args2kwargs", [VList [num x0; num x1; num x2]])].
+Proof.
+  unfold inside. intros H0 H1 H2 HG.
+  yields_with ltac:(first [real_fact | (one; lra) | (exfalso; one; lra)]) ltac:(first [reflexivity | exfalso; one; lra]).
+Qed.
+Theorem olcdm_no_lenses_passes om ok h l0 l1 l2 u0 u1 u2 x0 x1 x2 rg cu :
+  inside l0 u0 x0 -> inside l1 u1 x1 -> inside l2 u2 x2 ->
+  0 < 1 - om - ok ->
+  exists log,
+  yields (Gt Ls om ok h) 100 (CFun src_CosmoLikelihood_likelihood) (Some (cl_obj (VList []) "oLCDM" l0 l1 l2 u0 u1 u2)) [VList [num x0; num x1; num x2]] [] rg cu
+    (num Ls) cu log
+  /\ map fst log = ["lens"; "cosmo"; "args2kwargs"].
+Proof.
+  unfold inside. intros. eexists. split; [yields_with ltac:(first [real_fact | (one; lra)]) ltac:(reflexivity) | reflexivity].
+Qed.
 End Inside.
 
 (* the guard looks at the END POINT only: E^2 can be negative in between although the guard passes (known finding, C02:olcdm_interior_E2) *)
